@@ -382,3 +382,47 @@ M("c11-lib-transparent-unmapped", ["C11"], "amaranth/lib/memory.py", "          
 M("c11-read-addr-unmasked", ["C11"], PYRTL, '                            addr = emitter.def_var("read_addr", f"({(1 << len(port._addr)) - 1:#x} & {addr})")', '                            addr = emitter.def_var("read_addr", f"{addr}")', "R-11c")
 M("c11-read-no-enable", ["C11"], PYRTL, '                        emitter.append(f"if {en}:")\n                        with emitter.indent():\n                            addr = rhs(port._addr)\n                            addr = emitter.def_var("read_addr"',
   '                        emitter.append(f"if True:")\n                        with emitter.indent():\n                            addr = rhs(port._addr)\n                            addr = emitter.def_var("read_addr"', "R-11b")
+
+# ------------------------------------------------------------------------------------------------ C14 / C15 / C18 / C20
+WIR = "amaranth/lib/wiring.py"
+DAT = "amaranth/lib/data.py"
+ENU = "amaranth/lib/enum.py"
+LIO = "amaranth/lib/io.py"
+M("c14-flipped-getitem-noflip", ["C14"], WIR, "        return self.__unflipped.__getitem__(name).flip()", "        return self.__unflipped.__getitem__(name)", "R-14a")
+M("c14-flipped-setitem-noflip", ["C14"], WIR, "        self.__unflipped.__setitem__(name, member.flip())", "        self.__unflipped.__setitem__(name, member)", "R-14a")
+M("c14-member-signature-flips-out", ["C14"], WIR, "        if self.flow == Out:\n            return self._description\n        if self.flow == In:\n            return self._description.flip()",
+  "        if self.flow == In:\n            return self._description\n        if self.flow == Out:\n            return self._description.flip()", "R-14a")
+M("c14-connect-eq-reversed", ["C14"], WIR, "                    eq = in_value.eq\n", "                    eq = out_value.eq\n", "R-14b")
+M("c14-connect-valueerror", ["C14"], WIR, "            raise ConnectionError(\n                f\"Cannot connect several output members {out_member_paths_as_string} together\")",
+  "            raise ValueError(\n                f\"Cannot connect several output members {out_member_paths_as_string} together\")", "R-14c")
+M("c14-connect-sync", ["C14"], WIR, "    m.d.comb += connections", "    m.d.sync += connections", "R-14b")
+M("c14-metadata-dir-swapped", ["C14"], WIR, '"dir": "in" if member.flow == In else "out",', '"dir": "out" if member.flow == In else "in",', "R-14d")
+M("c14-metadata-no-validate", ["C14"], WIR, "        self.validate(instance)\n        return instance", "        return instance", "R-14d")
+M("c14-width-check-dropped", ["C14"], WIR, "            if Shape.cast(first_member_shape).width != Shape.cast(member_shape).width:", "            if False:", "R-14c")
+M("c14-flow-flip-identity", ["C14"], WIR, "        if self == Out:\n            return In\n        if self == In:\n            return Out", "        if self == Out:\n            return Out\n        if self == In:\n            return In", "R-14a")
+M("c15-const-getitem-index-shift", ["C15"], DAT, "                value = (self.__target >> key * elem_width) & ((1 << elem_width) - 1)", "                value = (self.__target >> (key + 1) * elem_width) & ((1 << elem_width) - 1)", "R-15a")
+M("c15-const-getitem-field-width", ["C15"], DAT, "            value = (self.__target >> field.offset) & ((1 << field.width) - 1)", "            value = (self.__target >> field.offset) & ((1 << field.offset) - 1)", "R-15a")
+M("c15-struct-offset-before", ["C15"], DAT, "            self._fields[key] = Field(shape, offset)\n            offset += cast_shape.width", "            offset += cast_shape.width\n            self._fields[key] = Field(shape, offset)", "R-15b")
+M("c15-union-size-sum", ["C15"], DAT, "        return max((field.width for field in self._fields.values()), default=0)", "        return sum(field.width for field in self._fields.values())", "R-15b")
+M("c15-array-getitem-offset", ["C15"], DAT, "            return Field(self._elem_shape, key * Shape.cast(self._elem_shape).width)", "            return Field(self._elem_shape, key)", "R-15b")
+M("c15-layout-const-mask-no-shift", ["C15"], DAT, "            mask = ((1 << cast_field_shape.width) - 1) << field.offset", "            mask = ((1 << cast_field_shape.width) - 1)", "R-15c")
+M("c15-flag-and-as-or", ["C15"], ENU, "        return self.__bitop(other, operator.__and__)", "        return self.__bitop(other, operator.__or__)", "R-15d")
+M("c15-view-signed-not-reinterpreted", ["C15"], DAT, "        if Shape.cast(shape).signed:\n            return value.as_signed()\n        else:\n            return value\n\n    def __getattr__(self, name):\n        \"\"\"Access a field of the underlying value.\n\n        Returns :py:`self[name]`.",
+  "        return value\n\n    def __getattr__(self, name):\n        \"\"\"Access a field of the underlying value.\n\n        Returns :py:`self[name]`.", "R-15a")
+M("c15-enum-from-bits", ["C15"], ENU, "    def from_bits(cls, bits):\n        return cls(bits)", "    def from_bits(cls, bits):\n        return cls(bits & 1)", "R-15d")
+M("c18-diff-getitem-n-unsliced", ["C18"], LIO, "        return DifferentialPort(self._p[index], self._n[index], invert=self._invert[index],", "        return DifferentialPort(self._p[index], self._n, invert=self._invert[index],", "R-18a")
+M("c18-single-add-swapped", ["C18"], LIO, "        return SingleEndedPort(Cat(self._io, other._io), invert=self._invert + other._invert,", "        return SingleEndedPort(Cat(other._io, self._io), invert=self._invert + other._invert,", "R-18a")
+M("c18-buffer-raw-o", ["C18"], LIO, "                m.submodules += IOBufferInstance(self._port.io, o=o_inv, oe=self.oe)", "                m.submodules += IOBufferInstance(self._port.io, o=self.o, oe=self.oe)", "R-18b")
+M("c18-diff-n-not-inverted", ["C18"], LIO, "                m.submodules += IOBufferInstance(self._port.n, o=~o_inv, oe=self.oe)\n            else:", "                m.submodules += IOBufferInstance(self._port.n, o=o_inv, oe=self.oe)\n            else:", "R-18b")
+M("c18-ffbuffer-i-domain", ["C18"], LIO, "            m.d[self.i_domain] += i_ff.eq(io_buffer.i)", "            m.d[self.o_domain] += i_ff.eq(io_buffer.i)", "R-18c")
+M("c18-ffbuffer-oe-unregistered", ["C18"], LIO, "            m.d.comb += io_buffer.oe.eq(oe_ff)", "            m.d.comb += io_buffer.oe.eq(self.oe)", "R-18c")
+M("c18-sim-oe-not-replicated", ["C18"], LIO, "                m.d.comb += self._port.oe.eq(self.oe.replicate(len(self._port)))", "                m.d.comb += self._port.oe.eq(self.oe)", "R-18b")
+M("c18-sim-invert-int-key", ["C18"], LIO, "            result._invert = (self._invert[key],)", "            result._invert = self._invert[key:key + 1]", "R-18a")
+M("c20-assert-lsb-only", ["C20"], PYRTL, '            self.emitter.append(f"if not {self.rhs.sign(stmt.test)}:")', '            self.emitter.append(f"if not (1 & {self.rhs(stmt.test)}):")', ["R-20c", "R-01c"])
+M("c20-eval-format-no-s", ["C20"], PYEVAL, "            if spec.endswith(\"s\"):\n                chunks.append(format(value_to_string(value), spec[:-1]))\n            else:\n                chunks.append(format(value, spec))", "            chunks.append(format(value, spec))", "R-20a")
+M("c20-format-skip-validation", ["C20"], AST, "                    # Perform validation.\n                    self._parse_format_spec(format_spec, obj.shape())\n", "", "R-20b")
+M("c20-spec-allows-caret", ["C20"], AST, "        if match[\"align\"] == \"^\":\n            raise ValueError(f\"Alignment {match['align']!r} is not supported\")\n", "", "R-20b")
+M("c20-emit-format-spliced", ["C20"], PYRTL, '                gen_chunks.append(f"format({value}, {format_desc!r})")', '                gen_chunks.append(f"\'{{:{format_desc}}}\'.format({value})")', "R-20a")
+M("c20-value-to-string-chr", ["C20"], PYEVAL, "    return msg.decode()", "    return \"\".join(chr(b) for b in msg)", "R-20a")
+M("c20-print-unnormalised", ["C20"], PYRTL, "                value = self.rhs.sign(value)\n                if format_desc.endswith", "                value = self.rhs(value)\n                if format_desc.endswith", ["R-20a", "R-01c"])
+M("c20-sync-print-no-edge", ["C20"], IR, "                cell = _nir.SyncPrint(module_idx, en=cond,\n                                      clk=clk, clk_edge=cd.clk_edge,", "                cell = _nir.SyncPrint(module_idx, en=cond,\n                                      clk=clk, clk_edge=\"pos\",", "R-20c")
